@@ -531,7 +531,11 @@ type acase struct {
 	Dec bool    `json:"dec"`
 	Exp string  `json:"exp"`
 	WFE []bool  `json:"wfe"`
+	Variant int `json:"-"` // which concrete "wrong" value to use (-1: seeded choice)
 }
+
+// number of concrete variants every case with a "wrong" patch is run with
+const wrongVariants = 12
 
 func lit(s string) *node {
 	switch s[0] {
@@ -610,11 +614,12 @@ func slotKind(p []string) byte {
 }
 
 // wrongFor picks a JSON value of a type the slot at path p cannot decode (the choice varies with the seed).
-func wrongFor(p []string, rng *mrand.Rand) *node {
+func wrongFor(p []string, rng *mrand.Rand, variant int) *node {
 	c := []string{`true`}
 	switch slotKind(p) {
 	case 'B':
-		c = []string{`true`, `{}`, `[]`, `1.5`, `"!"`, `-1`} // "!": not base64; 1.5 / -1: not a non-negative integer
+		// "!": not base64; 1.5 / -1: not a non-negative integer; strings of padding only, a lone character, broken padding
+		c = []string{`true`, `{}`, `[]`, `1.5`, `"!"`, `-1`, `"="`, `"=="`, `"===="`, `"A"`, `"A==="`, `" "`}
 	case 'Y':
 		c = []string{`true`, `{}`, `1.5`, `"!"`, `7`}
 	case 'U':
@@ -625,6 +630,9 @@ func wrongFor(p []string, rng *mrand.Rand) *node {
 		c = []string{`true`, `[]`, `"x"`, `7`}
 	case 'A':
 		c = []string{`true`, `{}`, `"x"`, `7`}
+	}
+	if variant >= 0 {
+		return lit(c[variant%len(c)])
 	}
 	return lit(c[rng.Intn(len(c))])
 }
@@ -653,7 +661,7 @@ func garble(n *node, rng *mrand.Rand) *node {
 }
 
 // apply performs one patch on the tree and keeps `keys` (the public key of every list element) aligned.
-func apply(root *node, keys *[]*gabikeys.PublicKey, pt patch, rng *mrand.Rand) error {
+func apply(root *node, keys *[]*gabikeys.PublicKey, pt patch, rng *mrand.Rand, variant int) error {
 	p := pt.P
 	cur := root.get(p)
 	last := ""
@@ -685,7 +693,7 @@ func apply(root *node, keys *[]*gabikeys.PublicKey, pt patch, rng *mrand.Rand) e
 		if cur == nil {
 			return fmt.Errorf("wrong: no node at %v", p)
 		}
-		return root.set(p, wrongFor(p, rng))
+		return root.set(p, wrongFor(p, rng, variant))
 	case "empty":
 		if cur == nil || (cur.kind != 'o' && cur.kind != 'a') {
 			return fmt.Errorf("empty: no container at %v", p)
@@ -839,6 +847,29 @@ func run(a *hx.Args, res *hx.Result) {
 			hx.Fatal("case for unknown template %q", cases[i].T)
 		}
 	}
+	// every case with a "wrong" patch is run once per concrete wrong value
+	{
+		var exp []acase
+		var expLines []json.RawMessage
+		for i, c := range cases {
+			res.Count("input-case")
+			hasWrong := false
+			for _, pt := range c.H {
+				hasWrong = hasWrong || pt.Op == "wrong"
+			}
+			if !hasWrong {
+				c.Variant = -1
+				exp, expLines = append(exp, c), append(expLines, lines[i])
+				continue
+			}
+			for v := 0; v < wrongVariants; v++ {
+				c2 := c
+				c2.Variant = v
+				exp, expLines = append(exp, c2), append(expLines, lines[i])
+			}
+		}
+		cases, lines = exp, expLines
+	}
 	seeds := make([]int64, len(cases))
 	for i := range seeds {
 		seeds[i] = rng.Int63()
@@ -862,7 +893,7 @@ func replayCase(c acase, raw json.RawMessage, t *template, alt map[*gabikeys.Pub
 	tree := t.tree.clone()
 	keys := append([]*gabikeys.PublicKey(nil), t.keys...)
 	for _, pt := range c.H {
-		if err := apply(tree, &keys, pt, rng); err != nil {
+		if err := apply(tree, &keys, pt, rng, c.Variant); err != nil {
 			hx.Fatal("patch %+v of case %s cannot be applied: %v", pt, raw, err)
 		}
 	}
